@@ -49,13 +49,18 @@ def case(rec, cfg, agent, op, entry, sid=1, variant=0, es=0, rstyle=0):
             # only the msgID ties such a Report to the request
             rid = [req.reqid, 0, 2 ** 31 - 1, (req.reqid + 1) & 0x7FFFFFFF][variant % 4]
             if rstyle:
-                bt = {1: (0, 0), 2: (3, 4000), 3: (2, 9000)}[rstyle]
+                bt = {1: (0, 0), 2: (3, 4000), 3: (2, 9000), 4: (2 ** 31 - 1, 2 ** 31 - 1), 5: (2 ** 31 - 1, 0), 6: (1, 2 ** 31 - 1)}[rstyle]
                 d = agent.reply(cfg, req, vbs, ptype="report", reqid=rid, mac="absent", enc="plain", flag_auth=False, flag_priv=False, boots=bt[0], time=bt[1])
             else:
                 d = agent.reply(cfg, req, vbs, ptype="report", reqid=rid)
         else:
             # the statement speaks of the varbinds of the matching reply, whatever error-status / error-index it carries
-            d = agent.reply(cfg, req, vbs, ptype=ptype, es=es, ei=(1 if es and vbs else 0))
+            ckw = {}
+            if rstyle and cfg.ver == "v3":
+                bt = {4: (2 ** 31 - 1, 2 ** 31 - 1), 5: (2 ** 31 - 1, 0), 6: (1, 2 ** 31 - 1)}.get(rstyle)
+                if bt:
+                    ckw = dict(boots=bt[0], time=bt[1])            # the agent's clock at the top of the INTEGER (0..2147483647) range
+            d = agent.reply(cfg, req, vbs, ptype=ptype, es=es, ei=(1 if es and vbs else 0), **ckw)
         s.inject(d)
         s.recv(op)
     s.close()
@@ -120,8 +125,13 @@ def run(tier):
                 a, b = case(rec, std[cn], agent, op, e, variant=ei)
                 runs.append((a, b, dict(cfg=cn, op=op, entry=e)))
                 chk.case((cn, op, json.dumps(e, sort_keys=True)), nontrivial=(e["ptype"] != 0 and (len(e["vbs"]) > 0 or e["ptype"] == 8)))
+                if std[cn].ver == "v3" and e["ptype"] == 2 and len(e["vbs"]) <= 1:
+                    rstyle = 4 + (ei + ci) % 3
+                    a, b = case(rec, std[cn], agent, op, e, variant=ei, rstyle=rstyle)
+                    runs.append((a, b, dict(cfg=cn, op=op, entry=e, rstyle=rstyle, variant=ei)))
+                    chk.case((cn, op, "rstyle", rstyle, json.dumps(e, sort_keys=True)), nontrivial=True)
                 if e["ptype"] == 8 and std[cn].ver == "v3" and (len(e["vbs"]) <= 1 or (ei + ci) % 3 == 0):
-                    rstyle = 1 + (ei + ci) % 3
+                    rstyle = 1 + (ei + ci) % 6
                     a, b = case(rec, std[cn], agent, op, e, variant=ei, rstyle=rstyle)
                     runs.append((a, b, dict(cfg=cn, op=op, entry=e, rstyle=rstyle, variant=ei)))
                     chk.case((cn, op, "rstyle", rstyle, json.dumps(e, sort_keys=True)), nontrivial=True)
